@@ -60,14 +60,21 @@ func c19Values() []any {
 		[]byte("bytes\x00\xff"),
 		[]int{1, 2, 3},
 		nil, 42, true, 3.5,
+		// values that already are JSON text
+		json.RawMessage(`{"x":[1,2,{"y":null}]}`), json.RawMessage(nil), json.RawMessage(`"s"`),
 	)
 	return vs
 }
 
+// c19SliceErr is an error whose dynamic type cannot be compared with ==
+type c19SliceErr []string
+
+func (e c19SliceErr) Error() string { return strings.Join(e, ";") }
+
 func c19Unencodable() []any {
 	cyc := &c19Cyclic{}
 	cyc.Self = cyc
-	return []any{make(chan int), func() {}, math.NaN(), map[string]any{"f": func() {}}, cyc, math.Inf(1)}
+	return []any{make(chan int), func() {}, math.NaN(), map[string]any{"f": func() {}}, cyc, math.Inf(1), json.RawMessage(`{"broken":`), json.RawMessage(`]`)}
 }
 
 func c19Gen(tier string, emit func(c19Case)) {
@@ -346,6 +353,31 @@ func c19Run(c c19Case, st *fw.Stats) []fw.Viol {
 							add("helper:content-length", fmt.Sprintf("%s: announces Content-Length %s but sends %d bytes (%q)", what, cl, w.Body.Len(), trunc(w.Body.String())))
 						}
 					}
+					// two helper failures in one request, with the very same error value / with errors of a type that cannot be
+					// compared: both are reported, nothing panics
+					for name, mkErr := range map[string]func() error{
+						"the same sentinel error twice":           func() error { return io.ErrUnexpectedEOF },
+						"two errors of an uncomparable type":      func() error { return c19SliceErr{"a", "b"} },
+						"an uncomparable error after a plain one": nil,
+					} {
+						status, mkErr := status, mkErr
+						_, errs2, pv2 := c19Serve("", func(ctx *rux.Context) {
+							if mkErr == nil {
+								ctx.AddError(errors.New("plain"))
+								ctx.Stream(status, "app/stream", iotest.ErrReader(c19SliceErr{"x"}))
+								ctx.AddError(c19SliceErr{"x"})
+								return
+							}
+							ctx.Stream(status, "app/stream", iotest.ErrReader(mkErr()))
+							ctx.Stream(status, "app/stream", iotest.ErrReader(mkErr()))
+						})
+						st.Evals++
+						if pv2 != nil {
+							add("helper:panic-on-unencodable", fmt.Sprintf("Stream(%d) failing twice in one request (%s) panicked: %v", status, name, pv2))
+						} else if want := map[bool]int{true: 3, false: 2}[mkErr == nil]; len(errs2) != want {
+							add("helper:no-error-on-unencodable", fmt.Sprintf("Stream(%d) failing twice in one request (%s): %d entries in the context's error list, expected %d", status, name, len(errs2), want))
+						}
+					}
 					status := status
 					w, errs, pv := c19Serve("", func(ctx *rux.Context) {
 						ctx.Stream(status, "app/stream", io.MultiReader(strings.NewReader("partial"), iotest.ErrReader(errors.New("read failed"))))
@@ -544,6 +576,9 @@ func c19Run(c c19Case, st *fw.Stats) []fw.Viol {
 				if _, isF := v.(float64); isF && name == "render.XML" {
 					continue // XML encodes NaN / Inf as text
 				}
+				if _, isRaw := v.(json.RawMessage); isRaw && name == "render.XML" {
+					continue // for encoding/xml a RawMessage is a byte slice like any other
+				}
 				if _, isC := v.(*c19Cyclic); isC && name == "render.XML" {
 					continue // encoding/xml has no cycle detection: not a value the statement can mean
 				}
@@ -639,7 +674,7 @@ func c19Run(c c19Case, st *fw.Stats) []fw.Viol {
 var c19Spec = fw.Spec[c19Case]{
 	ID:    "C19",
 	Level: "model_checking",
-	Rule: "complete product: every helper on the context of a handler used directly as http.Handler; every helper alone on a fresh router after every ordered pair of 13 helper calls built one earlier response (differential against the pristine process); 11 context helpers x 8 status codes x value alphabets (7 strings with HTML / unicode / control characters; maps, structs, pointers, byte and int slices, scalars; unencodable chan / func / NaN / Inf / cyclic values; for Stream also 5 reader shapes and 5 sized readers that were partly read before - the rest is streamed and an announced Content-Length equals it) x preset Content-Type absent / present (HTTPError answers text/plain whatever was set before) x another status already selected by an earlier handler / an error already recorded by an earlier middleware (no OnError hook); 11 pkg/render functions x 3 preset Content-Types; render.Auto x ALL Accept lists of <=3 (thorough 4) entries over 10 entries (the five supported MIME strings, foo/bar, */*, q-parameters, empty); " +
+	Rule: "complete product: every helper on the context of a handler used directly as http.Handler; every helper alone on a fresh router after every ordered pair of 13 helper calls built one earlier response (differential against the pristine process); 11 context helpers x 8 status codes x value alphabets (7 strings with HTML / unicode / control characters; maps, structs, pointers, byte and int slices, scalars; unencodable chan / func / NaN / Inf / cyclic values / invalid json.RawMessage; json.RawMessage values incl. nil; two helper failures in one request with the same or with uncomparable error values; for Stream also 5 reader shapes and 5 sized readers that were partly read before - the rest is streamed and an announced Content-Length equals it) x preset Content-Type absent / present (HTTPError answers text/plain whatever was set before) x another status already selected by an earlier handler / an error already recorded by an earlier middleware (no OnError hook); 11 pkg/render functions x 3 preset Content-Types; render.Auto x ALL Accept lists of <=3 (thorough 4) entries over 10 entries (the five supported MIME strings, foo/bar, */*, q-parameters, empty); " +
 		"oracle: recorded status, documented Content-Type (preset preserved by every pkg/render renderer), body decodes back (JSONP unwrapped), first supported entry wins, encoding failures land in Context.Errors / the returned error; every evaluation is non-trivial except single-entry Accept lists",
 	Assume: []string{"text/html negotiation is the code's documented no-op and is modelled as such", "XML round trips use one struct type; encoding/xml has no cycle detection so cyclic values are not offered to it"},
 	Bounds: func(tier string) map[string]any {
